@@ -447,6 +447,15 @@ pub fn plan(tier: &str) -> Plan {
             4,
         ));
     }
+    // the same with a decision point right after the actor took an item off one of its ports: an event can land
+    // between the moment the loop picked a message and the moment it acts on it
+    let picked_cfg = ExecCfg { filter: Some(Arc::new(|_k, l, t: &vsched::TaskInfo| l == "mpsc.recv.ready" && t.role == "lib")), ..Default::default() };
+    for (local, closer) in [(false, Closer::None), (false, Closer::Drain), (true, Closer::None)] {
+        units.push(Unit::explore_split(
+            Job::new(format!("live/{}/2x2+supervision-events+picked/{closer:?}", if local { "thread-local" } else { "send" }), picked_cfg.clone(), Some(lb), live_body_x(2, 2, closer, false, false, local, true)),
+            4,
+        ));
+    }
     units.push(Unit::explore_split(Job::new("live/thread-local/2x2/Stop", live_cfg.clone(), Some(lb), live_body_x(2, 2, Closer::Stop, false, false, true, false)), 4));
     units.push(crate::common::alt_unit("alt/remote-id-cell/unserializable-refused".into(), ExecCfg::default(), Some(0), remote_cell_body(), 1));
     // task granularity: the same with no preemption inside the send path
